@@ -392,8 +392,10 @@ for i, mname in enumerate(C12_M):
         xb = "true" if xs else "false"
         # The plain async method is a 4-deep coroutine nest: its frame is compared natively only (./check --selftest);
         # tiers=() keeps the body in the native registry without ever handing it to the solver.
-        add("C12", "p12::proxy_plain_%s" % suffix, T, 2400, 14, build="mid", body="crate::p12::proxy_plain::<%d, %s>" % (i, xb), unwind=162,
-            inputs="generated method `%s` polled once; %s" % (mname, args), bound="one call through the generated async method (4-deep coroutine nest) up to its single write, 128/128 build", role="proxy_plain")
+        # The plain async method (proxy fn -> call_method -> send_call -> flush: a 4-deep nest) has no verdict even for the argument-less
+        # `ping` after 25 min of symbolic execution: native selftest only (tiers=()).
+        add("C12", "p12::proxy_plain_%s" % suffix, (), 2400, 14, build="mid", body="crate::p12::proxy_plain::<%d, %s>" % (i, xb), unwind=162,
+            inputs="generated method `%s` (native selftest only)" % mname, bound="native only", role="proxy_plain")
         if mname != "notify":
             add("C12", "p12::proxy_chain_%s" % suffix, Q if suffix in C12_QUICK_CHAIN else T, 2400, 16, build="mid", est_gb=(4 if suffix in C12_QUICK_CHAIN else 12),
                 body="crate::p12::proxy_chain::<%d, %s>" % (i, xb), unwind=162,
